@@ -58,3 +58,8 @@ CHECKS["C07"] = (
  "10^6 (quick) / 2.5*10^7 (thorough) cases: sequences of 1-40 tokens over all 33 token kinds, separated only where neighbours could merge, must lex to exactly the written (type, text) sequence incl. BadString on a raw newline and one BadURL up to the closing parenthesis; IsIdent and IsURLUnquoted are compared with the lexer on byte strings around the syntax boundaries. Evidence lists the adjacent-kind pairs observed. Held on what was observed.",
  "The generator encodes the css-syntax-3 railroad diagrams plus the 2014 tokens the lexer keeps; url is spelled with plain letters.",
  "DESIGN.md §4 C07")
+CHECKS["C08"] = (
+ "construction-time ground truth from a stylesheet generator compared unit by unit; shadow-stack nesting monitor with state-stack hook, offset-window token-conservation monitor against an independent lexer run, end-report clause on hostile bytes (runtime monitoring)",
+ "7*10^5 (quick) / 1.8*10^7 (thorough) cases: generated well-formed stylesheets and inline declaration lists must yield exactly the abstract unit sequence (type, lower-cased name, Values() with the whitespace rules of the statement); on hostile byte strings every Begin/End unit is matched against a shadow stack while no parse error was reported (also against the hooked state-stack depth), every token reported through data or Values() must be one of the lexer tokens consumed by that call, in source order, and the stream must end with ErrorGrammar/io.EOF within 2*tokens+8 calls and stay there. Held on what was observed.",
+ "Whitespace is generated only at positions on which the statement is explicit (see evidence assumptions); Values() is checked only for the unit kinds its documentation names plus parse-error units.",
+ "DESIGN.md §4 C08")
